@@ -221,6 +221,9 @@ func TestC10FormulaEnum(t *testing.T) {
 				if idx%vlib.NShards != vlib.Shard {
 					return
 				}
+				if n == 3 && !vlib.Thorough() && idx%4 != 0 {
+					return // quick tier: every 4th wiring of n = 3
+				}
 				classSets := []int{idx % (1 << n)}
 				if n == 2 {
 					classSets = []int{0, 1, 2, 3}
@@ -237,7 +240,11 @@ func TestC10FormulaEnum(t *testing.T) {
 			})
 		})
 	}
-	vlib.Exhaustive("tkn20 well-formed formulas of 2 and 3 gates", 48+4320, "all wirings in which every wire 0..2n-1 is consumed once and every wire n+1..2n is produced once; policy-only consumers see all, Decrypt all of n=2 and 1/48 of n=3 in quick")
+	if vlib.Thorough() {
+		vlib.Exhaustive("tkn20 well-formed formulas of 2 and 3 gates", 48+4320, "all wirings in which every wire 0..2n-1 is consumed once and every wire n+1..2n is produced once, for the policy-only consumers and Decrypt")
+	} else {
+		vlib.Exhaustive("tkn20 well-formed formulas of 2 gates", 48, "all wirings x all class assignments for the policy-only consumers, all wirings for Decrypt; of the 4320 wirings of 3 gates every 4th (Decrypt: every 48th)")
+	}
 }
 
 // drawGates draws a hostile gate list for a policy of n+1 inputs.
